@@ -34,7 +34,7 @@ def _walker_limit_conformance(ctx, tier, seed):
     t0 = time.time()
     r = lib.run_tlc("MC_C06", "MC_C06_q", workers=4)
     lib.tlc_ok(r, "MC_C06")
-    scs = [x for x in r.replays if not x["keys"] and not x["arch"] and "grouped/" not in x["class"] and "/where" not in x["class"] and "constant-column" not in x["class"]]
+    scs = [x for x in r.replays if not x["keys"] and not x["arch"] and "grouped/" not in x["class"] and "/where" not in x["class"] and "constant-column" not in x["class"] and "second-argument" not in x["class"]]
     random.Random(seed + 4).shuffle(scs)
     if tier == "quick":
         scs = scs[:60]
